@@ -612,6 +612,8 @@ def corpus_case(line):
         return Case(line[3:], o=False, tag="corpus/edge")
     if line.startswith("sieve_"):       # real runs: the model answers through the follow-up request
         return Case(line, k=False, tag="corpus/real", timeout=300.0)
+    if line.startswith("final_step "):  # constructed sets: the model answers through the follow-up `final_replay`
+        return Case(line, k=False, tag="corpus/fstep")
     return Case(line, tag="corpus")
 
 
